@@ -650,7 +650,7 @@ mod imp {
         let mut tag = |t: &mut u64| { *t += 1; *t };
         let names = ["op", "relay", "pick", "conv", "emit"];
         let nm = names[r.below(names.len() as u64) as usize].to_string();
-        let shape = r.below(6);
+        let shape = r.below(8);
         let budget = 3_000_000u64;
         let mut expected: Vec<u64> = Vec::new();
         let src: String;
@@ -720,6 +720,55 @@ mod imp {
             aelys_runtime::verif::budget_set(u64::MAX);
             out = classify(res, o);
             let _ = std::fs::remove_dir_all(&dir);
+        } else if shape == 6 {
+            // (f) a session: top-level LAMBDAS (in a global, in an array, passed along, nested in a named function, with a named
+            // function nested inside) call a top-level function / read a top-level constant of THEIR OWN input; a later input
+            // rebinds both; calls from an input and from the host
+            let (ta, tb, tc, td) = (tag(&mut tagn), tag(&mut tagn), tag(&mut tagn), tag(&mut tagn));
+            let (f, k) = (nm.clone(), format!("{}_k", nm));
+            let mut vm = aelys_driver::new_vm_with_config(Default::default(), Vec::new()).unwrap();
+            let mut in1 = format!("fn {f}(x) {{ return \"{}\" }}\nlet {k} = \"{}\"\n", tag_text(ta), tag_text(tc));
+            in1.push_str(&format!("let g = fn(x) {{ return {f}(x) }}\nlet q = fn(x) {{ return {k} }}\nlet arr = [fn(x) {{ return {f}(x) }}, fn(x) {{ return {k} }}]\n"));
+            in1.push_str(&format!("fn outer(x) {{ let inner = fn(y) {{ return {f}(y) }}\n return inner(x) }}\nlet mk = fn(x) {{ fn named(y) {{ return {f}(y) }}\n return named(x) }}\n"));
+            in1.push_str(&format!("fn pass(cb, x) {{ return cb(x) }}\nlet mut kept = null\nfn keep(cb) {{ kept = cb\n return \".\" }}\nprintln(keep(fn(x) {{ return {f}(x) }}))\n"));
+            in1.push_str(&format!("println(g(1))\nprintln(q(1))\nprintln(pass(fn(x) {{ return {f}(x) }}, 1))\n"));
+            expected.extend([ta, tc, ta]);
+            let in2 = if r.chance(1, 2) { format!("fn {f}(x) {{ return \"{}\" }}\nlet {k} = \"{}\"\n", tag_text(tb), tag_text(td)) }
+                      else { format!("let {k} = \"{}\"\nfn {f}(x) {{ return \"{}\" }}\n", tag_text(td), tag_text(tb)) };
+            let mut in3 = String::new();
+            for _ in 0..(4 + r.below(4)) {
+                match r.below(7) {
+                    0 => { in3.push_str("println(g(1))\n"); expected.push(tb); }
+                    1 => { in3.push_str("println(q(1))\n"); expected.push(td); }
+                    2 => { in3.push_str("println(arr[0](1))\n"); expected.push(tb); }
+                    3 => { in3.push_str("println(arr[1](1))\n"); expected.push(td); }
+                    4 => { in3.push_str("println(outer(1))\n"); expected.push(tb); }
+                    5 => { in3.push_str("println(mk(1))\n"); expected.push(tb); }
+                    _ => { in3.push_str("println(kept(1))\n"); expected.push(tb); }
+                }
+            }
+            let lvl = opt.min(3);
+            let a = run_on_vm(&mut vm, &in1, lvl, budget);
+            let b = run_on_vm(&mut vm, &in2, lvl, budget);
+            let c = run_on_vm(&mut vm, &in3, lvl, budget);
+            let mut o = format!("{}{}{}", a.output, b.output, c.output);
+            // host calls of the lambdas
+            for (h, t) in [("g", tb), ("q", td)] {
+                let v = aelys_driver::call_function(&mut vm, h, &[aelys_runtime::Value::int(1)]);
+                o.push_str(&match v { Ok(v) => vm.value_to_string(v), Err(_) => "host-call-failed".to_string() }); o.push('\n');
+                expected.push(t);
+            }
+            let cls = [&a, &b, &c].iter().map(|x| x.class.clone()).find(|c| c != "ok").unwrap_or("ok".into());
+            src = format!("{}=====\n{}=====\n{}=====\n@call g 1\n@call q 1\n", in1, in2, in3);
+            out = Outcome { class: cls, output: o, value: String::new(), detail: format!("{}{}{}", a.detail, b.detail, c.detail) };
+        } else if shape == 7 {
+            // (g) two closures from ONE frame share a mutable callee variable, with a capture of an earlier-declared local in
+            // between (capture order high, low, high); after the frame returned one closure rebinds the callee, the other calls it
+            let (ta, tb) = (tag(&mut tagn), tag(&mut tagn));
+            let m = format!("let mut c1 = null\nlet mut c2 = null\nfn mk() {{\n    let low = 0\n    let mut {nm} = fn(x) {{ return \"{}\" }}\n    c1 = fn(x) {{ return {nm}(x) }}\n    let peek = fn(x) {{ return low }}\n    c2 = fn(x) {{ {nm} = fn(y) {{ return \"{}\" }}\n        return \".\" }}\n    return peek\n}}\nlet p = mk()\nprintln(c1(1))\nprintln(c2(1))\nprintln(c1(1))\nprintln(p(1) + 1)\n", tag_text(ta), tag_text(tb));
+            src = m;
+            expected.extend([ta, tb, 999]);
+            out = run_program_script(&src, opt, (0, 0), budget, None).0;
         } else if shape == 4 {
             // (d) a local, a parameter, a captured variable and a top-level definition named like a VM builtin, called with the
             // builtin's own number of arguments: the call runs what the name denotes there, not the intrinsic
